@@ -265,7 +265,7 @@ class Scenario:
         return [e for e in self.ctx.events if e['kind'] == kind]
 
 
-def explore(repo, body, typed=True, max_paths=512, intercept=None):
+def explore(repo, body, typed=True, max_paths=4096, intercept=None):
     """run body(scenario) for every combination of outcomes of undecidable tests.
     returns list of (choices, scenario, result, raised)"""
     out, stack = [], [[]]
